@@ -519,7 +519,47 @@ class NotIn(ast.NodeTransformer):
         return node
 
 
-KINDS = {"identity": None, "nested": Nested, "noteq": NotEq, "swapeq": SwapEq, "splitand": SplitAnd, "comp2loop": Comp2Loop, "loop2comp": Loop2Comp, "unelse": UnElse, "augexpand": AugExpand, "ifelse": IfElseInvert, "guardinv": GuardInvert, "hoistarg": HoistArg, "inlinetemp": InlineTemp, "swapadj": SwapAdjacent, "demorgan": DeMorgan, "ifexp2if": IfExp2If, "if2ifexp": If2IfExp, "contguard": ContGuard, "anyall": AnyAll, "lenzero": LenZero, "addelse": AddElse, "mergeif": MergeIf, "notin": NotIn}
+class HoistCall(ast.NodeTransformer):
+    """`f(a, g(x), ...)` / `x = C(..., obj.m(), ...)`: the first argument that is itself a call, when the callee expression and all earlier
+    arguments are pure names / attribute chains / constants (so evaluation order is unchanged), is bound to a fresh local on the line before.
+    Keyword arguments are treated alike if no positional argument after them exists (they are evaluated in source order)."""
+    def __init__(self):
+        self.n = 0
+
+    def _fix(self, body):
+        out = []
+        for st in body:
+            call = None
+            if isinstance(st, (ast.Assign, ast.Expr, ast.Return)) and isinstance(st.value, ast.Call):
+                call = st.value
+            if call is not None and _pure(call.func):
+                items = [("a", i, a) for i, a in enumerate(call.args)] + [("k", i, k.value) for i, k in enumerate(call.keywords) if k.arg is not None]
+                if not any(isinstance(a, ast.Starred) for a in call.args) and all(k.arg is not None for k in call.keywords):
+                    for kind, i, a in items:
+                        if isinstance(a, ast.Call) and _pure(a.func) and all(_pure(x) for x in a.args) and not a.keywords:
+                            self.n += 1
+                            tmp = f"hoistedcall_{self.n}"
+                            out.append(ast.copy_location(ast.Assign(targets=[ast.Name(id=tmp, ctx=ast.Store())], value=a), st))
+                            if kind == "a":
+                                call.args[i] = ast.Name(id=tmp, ctx=ast.Load())
+                            else:
+                                [k for k in call.keywords if k.arg is not None][i].value = ast.Name(id=tmp, ctx=ast.Load())
+                            break
+                        if not _pure(a):
+                            break
+            out.append(st)
+        return out
+
+    def generic_visit(self, node):
+        super().generic_visit(node)
+        for f in ("body", "orelse", "finalbody"):
+            b = getattr(node, f, None)
+            if isinstance(b, list) and b and isinstance(b[0], ast.stmt):
+                setattr(node, f, self._fix(b))
+        return node
+
+
+KINDS = {"identity": None, "nested": Nested, "noteq": NotEq, "swapeq": SwapEq, "splitand": SplitAnd, "comp2loop": Comp2Loop, "loop2comp": Loop2Comp, "unelse": UnElse, "augexpand": AugExpand, "ifelse": IfElseInvert, "guardinv": GuardInvert, "hoistarg": HoistArg, "inlinetemp": InlineTemp, "swapadj": SwapAdjacent, "demorgan": DeMorgan, "ifexp2if": IfExp2If, "if2ifexp": If2IfExp, "contguard": ContGuard, "anyall": AnyAll, "lenzero": LenZero, "addelse": AddElse, "mergeif": MergeIf, "notin": NotIn, "hoistcall": HoistCall}
 
 
 def transform(src, kind):
